@@ -133,7 +133,7 @@ for _pid, _mods in (("C06", "C06"), ("C07", "C07"), ("C19", "C19")):
 
 CHECKS["C05"] = {
     "modules": ["PGV.Props.C05"], "audits": ["PGV/Audit/C05.lean"],
-    "streams": ["lang", "flat", "lang-exh"], "thorough_seeds": 4,
+    "streams": ["lang", "flat", "lang-exh", "timeparse"], "thorough_seeds": 4,
     "assumptions": WALK_ASSUME + [
         "the documented language of each rule is the table in lean/PGV/Spec/Lang.lean (DESIGN.md §6 C05); date separators are judged when they are plain punctuation (sepOK); empty options, several rule items in one text and residual rules (ip, json, re, file, dir) get no spec verdict",
         "Go's regexp implements the usual leftmost semantics for the transcribed patterns; time.Parse + Format are transcribed by hand (lean/PGV/Model/TimeParse.lean) for layouts whose elements are 2006 01 02 15 04 05 — validated against the standard library through the implementation on every run — and stay a residual for every other layout; for in-range fields time.Date followed by Format renders those fields (calendar arithmetic of the standard library, assumed)",
